@@ -16,7 +16,7 @@ func init() {
 	core.Register(&core.Prop{
 		ID:    "C03",
 		Level: "exploration",
-		Rule: "histories of 2..40 renders on ONE shared engine over a pool of 40 generated templates (every tag; assign/capture of names that shadow bindings; sort, reverse, concat, uniq, compact, map, sort_natural applied to []any-typed bindings with spare capacity; cycles; loops ended by break; templates that fail part-way) x a pool of 12 binding environments x 4 entry points. Before the history every (template, bindings) pair is rendered solo on a fresh engine; in the history every step must reproduce its solo result, a deep snapshot of the bindings (maps by key, slices up to their capacity, struct fields, pointers, Drops) must be unchanged after every step, a reflective snapshot of every Template.GetRoot() tree (including closure identities) must be unchanged at the end, and a probe tag at the start of a render must see exactly the caller's variables. Non-trivial = a history with at least one repeated template after an intervening different render; distinct = distinct histories.",
+		Rule: "histories of 2..40 renders on ONE shared engine over a pool of 40 generated templates (every tag; assign/capture of names that shadow bindings; sort, reverse, concat, uniq, compact, map, sort_natural applied to []any-typed bindings with spare capacity; cycles; loops ended by break; templates that fail part-way; application tags that call Context.Set, InnerString, RenderChildren and ExpandTagArg) x a pool of 12 binding environments x 4 entry points. Before the history every (template, bindings) pair is rendered solo on a fresh engine; in the history every step must reproduce its solo result, a deep snapshot of the bindings (maps by key, slices up to their capacity, struct fields, pointers, Drops) must be unchanged after every step, a reflective snapshot of every Template.GetRoot() tree (including closure identities) must be unchanged at the end, and a probe tag at the start of a render must see exactly the caller's variables. Non-trivial = a history with at least one repeated template after an intervening different render; distinct = distinct histories.",
 		Exhaustive: func(string) bool { return false },
 		Assumptions: []string{
 			"state hidden inside compiled closures cannot be snapshotted; it is caught behaviourally by the solo-vs-history comparison",
@@ -72,12 +72,16 @@ var c03Fixed = []string{
 	"{% for x in spare reversed limit: 2 %}{% for y in words offset: 1 %}{% cycle 'g': 'p', 'q' %}{% endfor %}{% endfor %}", "{% if spare contains 3 %}{% assign spare = nil %}{% endif %}[{{ spare }}]",
 	"{{ longrecs | sort: 'k' | map: 'name' | join: '' }}{{ longrecs | sort: 'name' | map: 'k' | join: '' }}", "{{ mixedrecs | sort: 'k' | join: '|' }}", "{{ scalars | sort: 'k' | join: '|' }}{{ mixedrecs | sort: 'name' | map: 'name' | join: '|' }}",
 	"{{ longrecs | sort_natural: 'name' | map: 'name' | join: '' }}{{ mixedrecs | sort_natural: 'name' | size }}{{ longrecs | map: 'k' | uniq | size }}",
+	// application tags (custom.go): Context.Set writes a variable of this render, never the caller's map
+	"{% xset spare = 'custom-shadow' %}{{ spare }}{% xset newvar = 5 %}{{ newvar }}{% xget newvar %}{% xset words = spare %}", "{% xwrap {{ n }} %}{% assign inwrap = 1 %}{{ spare | sort | first }}{% xset deep = words | first %}{% endxwrap %}{{ inwrap }}{{ deep }}",
+	"{% xtwice %}{% cycle 'a', 'b', 'c' %}{% assign tw = tw | append: 'x' %}{% endxtwice %}{{ tw }}", "{% xwhen spare contains 3 %}{% xset st = nil %}{% xset recs = 1 %}{% endxwhen %}{{ st }}{{ recs }}{% xecho {{ spare | reverse | join: ',' }} %}",
 	"{{ words | join: ',' | split: ',' | sort | last }}{{ words | first | append: '!' }}", "{% case spare.size %}{% when 4 %}{% assign four = true %}{% endcase %}{{ four }}{% unless four %}U{% endunless %}",
 }
 
 func runC03(c *core.Ctx) {
 	probeSeen := ""
 	pe := liquid.NewEngine()
+	RegisterCustom(pe)
 	pe.RegisterTag("vprobe", func(ctx render.Context) (string, error) {
 		var ks []string
 		for k := range ctx.Bindings() {
@@ -95,6 +99,7 @@ func runC03(c *core.Ctx) {
 		}
 		r := c.Rand(h)
 		shared := liquid.NewEngine()
+		RegisterCustom(shared)
 		// pools
 		var srcs []string
 		for len(srcs) < 40 {
@@ -132,7 +137,9 @@ func runC03(c *core.Ctx) {
 			if v, ok := solo[k]; ok {
 				return v
 			}
-			v := core.Run(liquid.NewEngine(), srcs[ti], envs[bi])
+			fresh := liquid.NewEngine()
+			RegisterCustom(fresh)
+			v := core.Run(fresh, srcs[ti], envs[bi])
 			c.Eval(1)
 			solo[k] = v
 			return v
